@@ -51,7 +51,7 @@ def _plan(tier):
 
 def _equivariance(rep, tier):
     """base scale c*sigma: means / accepted steps / calibrated covariances unchanged, MLE scale divided by c, uncalibrated std times c"""
-    ks = [-3, 5] if tier == "quick" else [-20, -3, 1, 5, 20]
+    ks = [-3, 20] if tier == "quick" else [-20, -3, 1, 5, 20]
     combos = [("logistic", "dense", "ts1"), ("logistic", "iso", "ts0"), ("vdp2", "bd", "ts0")]
     if tier == "thorough":
         combos += [("logistic", "bd", "ts1"), ("vdp2", "dense", "ts1"), ("vdp2", "iso", "ts0")]
